@@ -126,7 +126,7 @@ func runC20(c *Ctx) {
 		})
 		ok := len(stillRunning) > 0
 		for _, e := range stillRunning {
-			if _, found := f.reach(Point{e.From.Succs[e.Succ], 0}, nil, func(pt Point, atExit bool) bool { return !atExit && pt == creates[0] }); found {
+			if _, found := f.reach(Point{e.From.Succs[e.Succ], 0}, nil, func(pt Point, atExit bool) bool { return !atExit && f.At(pt, creates[0]) }); found {
 				ok = false
 			}
 		}
@@ -234,87 +234,116 @@ func runC20(c *Ctx) {
 			}
 		}
 	}
-	// (2) stop protocol
+	// (2) stop protocol (expressed over types, facts and loop structure, not over local names)
 	if f := p.CFGOf(pkg, "OrderedDaemon", "stopWorkers"); f == nil {
 		r.Unresolved("stop/wait-before-cancel-lower-order", pkg+".OrderedDaemon.stopWorkers", "method not found")
 	} else {
 		key := pkg + ".OrderedDaemon.stopWorkers"
 		fd := p.FuncDecl(pkg, "OrderedDaemon", "stopWorkers")
-		isWait := func(n ast.Node) bool {
+		// a Wait on one of the per-order WaitGroups; waitIndex returns the index expression
+		waitIndex := func(n ast.Node) (string, bool) {
 			cl, ok := n.(*ast.CallExpr)
-			return ok && strings.HasSuffix(exprKey(cl.Fun), "[prevPriority].Wait") && strings.Contains(exprKey(cl.Fun), "wgPerSameShutdownOrder")
+			if !ok {
+				return "", false
+			}
+			se, ok := ast.Unparen(cl.Fun).(*ast.SelectorExpr)
+			if !ok || se.Sel.Name != "Wait" || !strings.HasSuffix(typeName(info.TypeOf(se.X)), "sync.WaitGroup") {
+				return "", false
+			}
+			if ix, ok := ast.Unparen(se.X).(*ast.IndexExpr); ok && fieldSel(info, ix.X, "wgPerSameShutdownOrder") {
+				return exprKey(ix.Index), true
+			}
+			return "", false
 		}
-		isCancel := callSuffix("worker.ctxCancel")
-		lower := f.RelEdges(func(rel Rel) bool {
-			return rel.Op == "<" && strings.HasSuffix(rel.L, ".shutdownOrder") && rel.R == "prevPriority"
-		})
-		if len(lower) == 0 {
-			r.Fail("stop/wait-before-cancel-lower-order", key, p.posStr(fd.Pos()), "no test `worker.shutdownOrder < prevPriority`: orders are not separated")
-		} else {
-			bad := false
-			for _, e := range lower {
-				if w, found := f.reach(Point{e.From.Succs[e.Succ], 0}, &searchOpts{AvoidNode: isWait}, func(pt Point, atExit bool) bool {
-					if atExit {
-						return false
-					}
-					hit := false
-					inspectNoLit(f.nodeAt(pt), func(n ast.Node) bool {
-						if isCancel(n) {
+		isWait := func(n ast.Node) bool { _, ok := waitIndex(n); return ok }
+		// cancelling a worker: a call through a field of type context.CancelFunc
+		isCancel := func(n ast.Node) bool {
+			cl, ok := n.(*ast.CallExpr)
+			if !ok {
+				return false
+			}
+			se, ok := ast.Unparen(cl.Fun).(*ast.SelectorExpr)
+			if !ok {
+				return false
+			}
+			sel := info.Selections[se]
+			return sel != nil && sel.Kind() == types.FieldVal && typeName(sel.Type()) == "context.CancelFunc"
+		}
+		nodeHas := func(pred func(ast.Node) bool) func(pt Point) bool {
+			return func(pt Point) bool {
+				hit := false
+				if n := f.nodeAt(pt); n != nil {
+					inspectNoLit(n, func(m ast.Node) bool {
+						if pred(m) {
 							hit = true
 						}
 						return !hit
 					})
-					return hit
-				}); found {
+				}
+				return hit
+			}
+		}
+		// the edge on which the next worker is known to have a LOWER order than the tracked one:
+		// <worker>.shutdownOrder < V ; V is the tracked order variable
+		tracked := ""
+		lower := f.RelEdges(func(rel Rel) bool {
+			if rel.Op == "<" && strings.HasSuffix(rel.L, ".shutdownOrder") && !strings.Contains(rel.R, ".shutdownOrder") {
+				tracked = rel.R
+				return true
+			}
+			return false
+		})
+		if len(lower) == 0 {
+			r.Fail("stop/wait-before-cancel-lower-order", key, p.posStr(fd.Pos()), "no test `<worker>.shutdownOrder < <tracked order>`: orders are not separated")
+		} else {
+			bad := false
+			waitsTracked := func(n ast.Node) bool { ix, ok := waitIndex(n); return ok && ix == tracked }
+			advances := func(n ast.Node) bool {
+				as, ok := n.(*ast.AssignStmt)
+				return ok && len(as.Lhs) == 1 && rawKey(as.Lhs[0]) == tracked && strings.HasSuffix(exprKey(as.Rhs[0]), ".shutdownOrder")
+			}
+			for _, e := range lower {
+				start := Point{e.From.Succs[e.Succ], 0}
+				if w, found := f.reach(start, &searchOpts{AvoidNode: waitsTracked}, func(pt Point, atExit bool) bool { return !atExit && nodeHas(isCancel)(pt) }); found {
 					bad = true
 					r.Fail("stop/wait-before-cancel-lower-order", key, p.posStr(fd.Pos()), "a worker of a lower shutdown order can be cancelled before the previous order's WaitGroup was waited for", w...)
 				}
-				// prevPriority updated on that edge before the next iteration
-				if _, found := f.reach(Point{e.From.Succs[e.Succ], 0}, &searchOpts{AvoidNode: func(n ast.Node) bool {
-					as, ok := n.(*ast.AssignStmt)
-					return ok && len(as.Lhs) == 1 && exprKey(as.Lhs[0]) == "prevPriority" && strings.HasSuffix(exprKey(as.Rhs[0]), ".shutdownOrder")
-				}}, func(pt Point, atExit bool) bool {
-					if atExit {
-						return true
-					}
-					hit := false
-					inspectNoLit(f.nodeAt(pt), func(n ast.Node) bool {
-						if isCancel(n) {
-							hit = true
-						}
-						return !hit
-					})
-					return hit
-				}); found {
+				if w, found := f.reach(start, &searchOpts{AvoidNode: waitsTracked}, func(pt Point, atExit bool) bool { return !atExit && nodeHas(advances)(pt) }); found {
 					bad = true
-					r.Fail("stop/wait-before-cancel-lower-order", key+" prevPriority", p.posStr(fd.Pos()), "prevPriority is not advanced to the new order before the worker is cancelled")
+					r.Fail("stop/wait-before-cancel-lower-order", key+" wait-then-advance", p.posStr(fd.Pos()), "the tracked order is advanced before the previous order's WaitGroup was waited for (the wait would then address the new order)", w...)
+				}
+				if _, found := f.reach(start, &searchOpts{AvoidNode: advances}, func(pt Point, atExit bool) bool { return atExit || nodeHas(isCancel)(pt) }); found {
+					bad = true
+					r.Fail("stop/wait-before-cancel-lower-order", key+" order advanced", p.posStr(fd.Pos()), "the tracked order ("+tracked+") is not advanced to the new order before the worker is cancelled")
 				}
 			}
 			if !bad {
-				r.Pass("stop/wait-before-cancel-lower-order", key, p.posStr(fd.Pos()), "on the lower-order edge: Wait on the previous order's group, then prevPriority advanced, then cancel")
+				r.Pass("stop/wait-before-cancel-lower-order", key, p.posStr(fd.Pos()), "on the lower-order edge: Wait on the tracked order's group, then the tracked order is advanced, then cancel")
 			}
 		}
-		// every running worker is cancelled: from the loop body's `worker := workers[name]`, all paths to the next iteration pass ctxCancel
-		heads := f.Find(func(n ast.Node) bool {
-			as, ok := n.(*ast.AssignStmt)
-			return ok && len(as.Lhs) == 1 && exprKey(as.Lhs[0]) == "worker" && strings.HasPrefix(exprKey(as.Rhs[0]), "workers[")
-		})
-		if len(heads) != 1 {
-			r.Fail("stop/every-worker-cancelled", key, p.posStr(fd.Pos()), "loop head `worker := workers[name]` not found")
-		} else if w, found := f.reach(Point{heads[0].B, heads[0].I + 1}, &searchOpts{AvoidNode: isCancel}, func(pt Point, atExit bool) bool {
-			return atExit || (pt == heads[0])
-		}); found {
-			r.Fail("stop/every-worker-cancelled", key, f.PosOf(heads[0]), "an iteration can finish without cancelling the worker's context", w...)
-		} else {
-			r.Pass("stop/every-worker-cancelled", key, f.PosOf(heads[0]), "every iteration cancels the worker's context")
+		// every worker is cancelled: in the loop that cancels, no iteration avoids the cancel
+		cancels := f.Find(isCancel)
+		var cancelLoop *loopInfo
+		for _, l := range f.Loops() {
+			l := l
+			for _, c := range cancels {
+				if f.InLoopBody(l, c) {
+					cancelLoop = &l
+				}
+			}
 		}
-		// final wait: from the lower-order test's range statement exit to function exit passes Wait
-		nonEmpty := f.RelEdges(func(rel Rel) bool { return rel.Op == "<" && rel.L == "0" && rel.R == "len(shutdownOrderWorker)" })
-		if len(nonEmpty) == 0 {
-			r.Fail("stop/final-wait", key, p.posStr(fd.Pos()), "no non-empty test of the snapshot")
-		} else {
-			// after the last cancel, every path to the exit passes a Wait
-			cancels := f.Find(isCancel)
+		switch {
+		case len(cancels) == 0 || cancelLoop == nil:
+			r.Fail("stop/every-worker-cancelled", key, p.posStr(fd.Pos()), "no loop that cancels the workers' contexts")
+		default:
+			if w, found := f.IterationSkips(*cancelLoop, isCancel); found {
+				r.Fail("stop/every-worker-cancelled", key, f.P.posStr(cancelLoop.Stmt.Pos()), "an iteration can finish without cancelling the worker's context", w...)
+			} else {
+				r.Pass("stop/every-worker-cancelled", key, f.P.posStr(cancelLoop.Stmt.Pos()), "every iteration cancels the worker's context")
+			}
+		}
+		// final wait: after the last cancel, every path to the exit passes a Wait
+		{
 			bad := len(cancels) == 0
 			for _, cpt := range cancels {
 				if _, found := f.PathToExitAvoiding(cpt, isWait); found {
@@ -327,22 +356,16 @@ func runC20(c *Ctx) {
 				r.Pass("stop/final-wait", key, p.posStr(fd.Pos()), "a Wait follows every cancel on all paths to the exit")
 			}
 		}
-		// snapshot
+		// snapshot: the list and the workers come from the locked snapshot helper (direct reads of
+		// the guarded fields without the lock are reported by lock/guarded-by)
 		snap := false
 		ast.Inspect(fd.Body, func(n ast.Node) bool {
-			if as, ok := n.(*ast.AssignStmt); ok && len(as.Rhs) == 1 && callSuffix(".getWorkersAndShutdownOrder")(ast.Unparen(as.Rhs[0])) && len(as.Lhs) == 2 {
-				snap = exprKey(as.Lhs[0]) == "workers" && exprKey(as.Lhs[1]) == "shutdownOrderWorker"
+			if callSuffix(".getWorkersAndShutdownOrder")(n) {
+				snap = true
 			}
 			return true
 		})
-		rangesSnap := false
-		ast.Inspect(fd.Body, func(n ast.Node) bool {
-			if rs, ok := n.(*ast.RangeStmt); ok && exprKey(rs.X) == "shutdownOrderWorker" {
-				rangesSnap = true
-			}
-			return true
-		})
-		if snap && rangesSnap {
+		if snap {
 			r.Pass("stop/uses-snapshot", key, p.posStr(fd.Pos()), "walks the snapshot taken under the lock")
 		} else {
 			r.Fail("stop/uses-snapshot", key, p.posStr(fd.Pos()), "stopWorkers must walk the snapshot returned by getWorkersAndShutdownOrder")
